@@ -1,7 +1,11 @@
 import SmtpV.Props.C14
+import SmtpV.Props.C14Line
 #print axioms SmtpV.Props.C14.C14_xtext_roundtrip
 #print axioms SmtpV.Props.C14.C14_monitor_model
 #print axioms SmtpV.Props.C14.C14_tokenise
 #print axioms SmtpV.Props.C14.C14_params_parse
 #print axioms SmtpV.Props.C14.C14_mail_options_trip
 #print axioms SmtpV.Props.C14.C14_rcpt_options_trip
+#print axioms SmtpV.Props.C14.C14_mail_line_trip
+#print axioms SmtpV.Props.C14.C14_rcpt_line_trip
+#print axioms SmtpV.Props.C14.mailCall_event
